@@ -357,6 +357,25 @@ func governanceScenarios() []*harness.Scenario {
 			After:  2,
 		}
 	}())
+	// a FEE-OPTION change has passed; in the block whose end applies it a SEND pays exactly the old minimum price;
+	// a stranger's finalize comes later (a no-op then). The mempool-isolation check sends a copy of that finalize
+	// to CheckTx in every gap - also while the proposal is passed but not yet finalised: its check path must not
+	// touch the fee options that block execution validates every fee against. (Added after a sub-agent's remark
+	// about the unchanged tree: the finalize check APPLIED the update to the option copies kept in memory.)
+	add(func() *harness.Scenario {
+		id := PID("fee-change")
+		return &harness.Scenario{
+			Kind:  action.PROPOSAL_FINALIZE.String(),
+			Note:  "multi-user-finalize-noop-after-a-fee-change-was-applied-in-a-block-with-a-minimum-fee-send",
+			World: world("fee-change"),
+			Prefix: func(w *harness.World) []harness.BlockSpec {
+				p := govPrefix(w, id, tConfig, "feeOption.minFeeDecimal:8", stFinal)
+				return append(p, blk(harness.Send(w.Users[0], w.Users[1].Addr, harness.Coin("OLT", harness.OLTUnits(1)), "min-fee-send")))
+			},
+			Target: func(w *harness.World) *harness.TxSpec { return ProposalFinalize(id, w.Users[2], "user-finalize-late") },
+			After:  2,
+		}
+	}())
 	add(govScenario(action.PROPOSAL_FINALIZE, "user-finalize-failed-proposal", tGeneral, "", stVote1,
 		func(w *harness.World, id governance.ProposalID) []harness.BlockSpec {
 			return []harness.BlockSpec{blk(vote(w, id, 0, governance.OPIN_NEGATIVE, "vote-no"))}
